@@ -1,5 +1,6 @@
 """C01 - printing a PHIL tree and re-parsing the text reproduces the tree."""
 import json
+import os
 
 import layout as L
 import parse_common as pc
@@ -296,9 +297,91 @@ class Clone(Stream):
         return o[0]
 
 
+class FileRoute(Stream):
+    """The printed text read back from a FILE (parse(file_name=...), what the phil tool, include files and file arguments of
+    the command line do) gives the tree that the same text gives as a string: in particular lines inside a multi-line quoted
+    word, or continuation lines of a wrapped value, that LOOK like directives ('#phil __END__', '#phil __OFF__') are content.
+    Oracle only."""
+    name = "file_route"
+    cluster = "Parse"
+    INNER = ["#phil __END__", "#phil __OFF__", "#phil __ON__", "#phil", "}", "include file x", "!a = 1", " #phil __END__ ", "\x0c", "a = \"", "\\"]
+    TQ = "'" * 3
+
+    def __init__(self, ctx):
+        super().__init__(ctx)
+        self.fp = import_freephil()
+
+    def corpus(self):
+        return [{"doc": 'a = "first line\n#phil __END__\nlast line"\nb = 2\n', "level": 3, "width": None},
+                {"doc": 'a = x\n  .help = "two lines\n#phil __END__\nof help"\nb = 2\n', "level": 3, "width": 1000},
+                {"doc": "a = " + " ".join(["word%d" % i for i in range(9)]) + ' "#phil" __END__ tail\nb = 2\n', "level": 0, "width": 40},
+                {"doc": "s {\n  a = " + self.TQ + "x\n#phil __OFF__\ny" + self.TQ + "\n}\nb = 2\n", "level": 2, "width": None}]
+
+    def cases(self, rng, tier):
+        for i in range(60 if tier == "quick" else 1500):
+            if i % 3 == 0:
+                at = L.gen_atree(rng, rich=True, expert=False, maxn=3)
+                doc = L.canonical_render(at)
+            else:
+                q = rng.choice(['"', "'", '"' * 3, self.TQ])
+                inner = rng.choice(self.INNER)
+                k = rng.randrange(3)
+                if k == 0:
+                    doc = "a = %sx\n%s\ny%s\nb = 2\n" % (q, inner, q)
+                elif k == 1:
+                    doc = "s {\n  a = 1 %sp\n%s\n%s q%s t\n  c = 3\n}\nb = 2\n" % (q, inner, inner, q)
+                else:
+                    doc = "a = 1\n  .help = %sh\n%s\nk%s\nb = 2\n" % (q, inner, q)
+            yield {"doc": doc, "level": rng.choice([0, 2, 3]), "width": rng.choice([None, 40, 79, 1000])}
+
+    def impl(self, case):
+        import re as _re
+        import shutil
+        import tempfile
+        fp = self.fp
+        try:
+            t0 = fp.parse(case["doc"])
+            text = t0.as_str(attributes_level=case["level"], print_width=case["width"])
+        except (RuntimeError, fp.Sorry) as e:
+            return ["unparseable", exc_class(e)]
+        if "\r" in text:
+            return ["skip-cr"]                  # universal newlines translate a CR inside a quoted word: C02 / C15's stream
+
+        def obs(thunk):
+            try:
+                t = thunk()
+                return ["ok", t.as_str(attributes_level=3), t.as_str(attributes_level=0)]
+            except (RuntimeError, fp.Sorry) as e:
+                return ["refused", _re.sub(r"\(.*?line", "(line", str(e))[:160]]
+        d = tempfile.mkdtemp(prefix="c01f_")
+        try:
+            f = os.path.join(d, "printed.phil")
+            with open(f, "w", newline="") as fh:
+                fh.write(text)
+            a = obs(lambda: fp.parse(input_string=text))
+            b = obs(lambda: fp.parse(file_name=f))
+            return ["ok"] if a == b else ["differs", a, b, text[:300]]
+        finally:
+            shutil.rmtree(d, ignore_errors=True)
+
+    def requests(self, case, o):
+        return []
+
+    def model(self, case, replies, o):
+        return o
+
+    def prop(self, case, o):
+        if o[0] == "differs":
+            return "the printed text %r parses from a string to %r, from a file to %r" % (o[3], o[1], o[2])
+        return None
+
+    def tag(self, case, o):
+        return o[0]
+
+
 SPEC = {
     "clusters": ["Parse"],
-    "streams": [PrintParse, Clone],
+    "streams": [PrintParse, Clone, FileRoute],
     "rule": "abstract trees with rich content (every built-in type with constructor arguments, long/hyphenated/tabbed/whitespace-only/multi-line "
             "help texts, up to 16 words per value incl. multi-line quoted words, dotted names, '!', deprecated) rendered by the layout sampler, "
             "x attributes level in {0,2,3} x print width in {None,40..120,100000}; freephil and the model each do parse -> print -> parse -> print; "
